@@ -382,5 +382,11 @@ CHECKS["C03"]["thorough"] += [_ph("u_notify_s3_m3", _W_NOT, "3 subscribers, 3 mi
 CHECKS["C19"]["thorough"] += [_g2("g_two_drop_2_2", _W_TWO, "A: 2+1 actions, B: 2 actions, B dropped")]
 CHECKS["C09"]["thorough"] += [_gn(n, _W_UNSUB, b, timeout_s=900) for n, b in [("s_unsub_taken0", "right after action 0 was taken"), ("s_unsub_effect1", "during the effect phase of action 1")]]
 
+_W_TWO_P = "two equal stores; A is stopped with a backlog of 2; while A's loop works through it INSIDE the join, another thread dispatches to B and stops / drops B (its own loop then runs inside B's join) at one scheduling point of A's loop; oracle: each store's log, state, acceptance and metrics are those of the single-store model"
+CHECKS["C19"]["quick"] += [_g2("g_two_b_stopped_while_a_between_actions", _W_TWO_P, "B used and stopped right after A took its second action")]
+CHECKS["C19"]["thorough"] += [_g2("g_two_b_dropped_while_a_before_first", _W_TWO_P, "B dropped before A takes its first action"), _g2("g_two_b_stopped_while_a_takes_marker", _W_TWO_P, "B stopped when A takes its shutdown marker")]
+CHECKS["C19"]["bounds"] += "; operations on B (dispatch + stop/drop, with B's loop running inside B's join) placed at 3 scheduling points inside A's loop run (K=1)"
+CHECKS["C19"]["outside"] = "more than two stores; operations of one store issued from inside a CALLBACK of the other (cross-store dispatch from a subscriber), thread-local or thread-name based coupling (all modelled contexts share one OS thread); interference through user-supplied shared objects"
+
 HOOK_COMMITS = ['da8b80e', '8cd617e', '39efd23']
 NOT_APPLICABLE = {}
